@@ -86,18 +86,36 @@ def fill_exact(world: World, f: Func, call: ast.Call) -> str:
     name = t.cast(ast.Attribute, call.func).attr
     if name not in ("recv_into", "readinto"):
         return f"the result of {name}() may be short (TCP delivers any prefix, b'' at EOF) and is not accumulated by a read-until-complete loop"
-    if not call.args or not isinstance(call.args[0], ast.Name):
-        return f"{name}() target is not a plain view name"
-    v = call.args[0].id
+    from .util import prov_text
+
+    if not call.args:
+        return f"{name}() without a target buffer"
+    tgt = call.args[0]
     loops = [n for n in body_nodes(f.node) if isinstance(n, ast.While) and any(x is call for x in ast.walk(n))]
     if not loops:
-        return f"{name}({v}) is not inside a loop: a short read leaves the buffer partly filled"
+        return f"{name}({unparse(tgt)}) is not inside a loop: a short read leaves the buffer partly filled"
     loop = loops[-1]
-    if not (isinstance(loop.test, ast.Name) and loop.test.id == v):
-        return f"the loop around {name}({v}) does not run until {v} is exhausted (condition: {unparse(loop.test)})"
     cert = [c for c in LoopChecker(world, f).all() if c.node is loop]
-    if not cert or cert[0].kind != "V-CONSUME":
-        return f"no progress certificate for the read loop: {cert[0].why if cert else 'loop not found'} (a zero byte read at EOF spins forever)"
+    if isinstance(tgt, ast.Name):
+        # shape A: while v: n = recv_into(v); ...; v = v[n:]
+        v = tgt.id
+        if not (isinstance(loop.test, ast.Name) and loop.test.id == v):
+            return f"the loop around {name}({v}) does not run until {v} is exhausted (condition: {unparse(loop.test)})"
+        if not cert or cert[0].kind != "V-CONSUME":
+            return f"no progress certificate for the read loop: {cert[0].why if cert else 'loop not found'} (a zero byte read at EOF spins forever)"
+    elif isinstance(tgt, ast.Subscript) and isinstance(tgt.value, ast.Name) and isinstance(tgt.slice, ast.Slice) and tgt.slice.upper is None and tgt.slice.step is None and isinstance(tgt.slice.lower, ast.Name):
+        # shape B: while off < len(v): n = recv_into(v[off:]); ...; off += n
+        v, off = tgt.value.id, tgt.slice.lower.id
+        t_ = loop.test
+        okt = isinstance(t_, ast.Compare) and len(t_.ops) == 1 and ((isinstance(t_.ops[0], ast.Lt) and unparse(t_.left) == off and prov_text(f, t_.comparators[0], t_) == f"len({v})") or (isinstance(t_.ops[0], ast.Gt) and unparse(t_.comparators[0]) == off and prov_text(f, t_.left, t_) == f"len({v})") or (isinstance(t_.ops[0], ast.NotEq) and {unparse(t_.left), prov_text(f, t_.comparators[0], t_)} == {off, f"len({v})"}))
+        if not okt:
+            return f"the loop around {name}({v}[{off}:]) does not run until {off} reaches len({v}) (condition: {unparse(loop.test)})"
+        if any(isinstance(n, (ast.Assign, ast.AugAssign)) and v in [unparse(x) for x in (n.targets if isinstance(n, ast.Assign) else [n.target])] for n in ast.walk(loop)):
+            return f"{v} is rebound inside the read loop"
+        if not cert or cert[0].kind != "V-COUNT-UP":
+            return f"no progress certificate for the read loop: {cert[0].why if cert else 'loop not found'} (a zero byte read at EOF spins forever)"
+    else:
+        return f"{name}() target {unparse(tgt)} is neither a view name nor view[offset:]"
     g = build(f.node)
     cond_ids = [n.id for n in g.nodes if n.kind == "cond" and n.stmt is loop and n.ast is loop.test]
     if not cond_ids:
